@@ -24,3 +24,6 @@ Proof. induction l as [|x l IH]; intros [|n] [|i] H; cbn; auto; try lia. apply I
 
 Lemma length_firstn_le {A} (l : list A) n : (n <= length l)%nat -> length (firstn n l) = n.
 Proof. intros. rewrite firstn_length. lia. Qed.
+
+Lemma nth_error_skipn' {A} (l : list A) : forall n i, nth_error (skipn n l) i = nth_error l (n + i).
+Proof. induction l as [|x l IH]; intros [|n] i; cbn; auto. destruct i; reflexivity. Qed.
